@@ -155,7 +155,8 @@ Section GS.
     intros [Hcp Hml] Hf. unfold py_gs_find_cp. rewrite Hcp, Hml.
     rewrite (dmem_dfind ostr_eqb), negb_involutive.
     destruct (dfind ostr_eqb p cp) as [m|] eqn:Em; cbn [is_none].
-    - (* the clamped starting level *)
+    - cbn [dict_get bind].
+      (* the clamped starting level *)
       set (t0 := if (Z.of_nat maxl <? top)%Z then Z.of_nat maxl else top).
       assert (forall (f : Z -> res (option (list N * Z))),
                  (top_level <- (if (Z.of_nat maxl <? top)%Z then Ok (Z.of_nat maxl) else Ok top) ;; f top_level) = f t0) as Hjoin.
@@ -260,6 +261,46 @@ Section GS.
       rewrite skipn_indexed_all. cbn [first_st fst snd]. exists o. split; [exact Hrel | reflexivity].
   Qed.
 
+  Lemma zenumerate_indexed {X} (l : list X) :
+    zenumerate l = map (fun ic => (Z.of_nat (fst ic), snd ic)) (indexed l).
+  Proof.
+    unfold zenumerate, OmenRt.zenumerate, indexed. generalize 0. induction l as [|x r IH]; intro a; cbn [length seq map combine].
+    - reflexivity.
+    - now rewrite IH.
+  Qed.
+
+  Lemma fill_inner_for {R : Type} (found : option pytree * pyopt -> R)
+        (G : cache -> nat * N -> option tree * cache) (updf : cache -> option tree -> cache)
+        (cs : list N)
+        (body : Z * N -> pyopt -> res (lctl R pyopt)) (kont : pyopt -> res R) :
+    (forall o c i ch, crel optmax o c -> nth_error cs i = Some ch ->
+        exists o', crel optmax o' (match fst (G c (i, ch)) with
+                                   | Some _ => updf (snd (G c (i, ch))) (fst (G c (i, ch)))
+                                   | None => snd (G c (i, ch)) end) /\
+                   body (Z.of_nat i, ch) o = Ok (match fst (G c (i, ch)) with
+                                                 | Some t => Return (found (Some (tree_py t), o'))
+                                                 | None => Continue o' end)) ->
+    forall o c, crel optmax o c ->
+      exists o', crel optmax o' (match fst (first_st G c (indexed cs)) with
+                                 | Some _ => updf (snd (first_st G c (indexed cs))) (fst (first_st G c (indexed cs)))
+                                 | None => snd (first_st G c (indexed cs)) end) /\
+                 mfor (zenumerate cs) body o kont =
+                 match fst (first_st G c (indexed cs)) with
+                 | Some t => Ok (found (Some (tree_py t), o'))
+                 | None => kont o'
+                 end.
+  Proof.
+    intros Hbody. rewrite zenumerate_indexed.
+    assert (Hin : forall ic, In ic (indexed cs) -> nth_error cs (fst ic) = Some (snd ic)).
+    { intros [i ch] H. now apply in_indexed. }
+    induction (indexed cs) as [|[i ch] r IH]; intros o c Hrel; cbn [map mfor first_st fst snd].
+    - exists o. split; [exact Hrel | reflexivity].
+    - destruct (Hbody o c i ch Hrel (Hin (i, ch) (or_introl eq_refl))) as (o1 & Hrel1 & Hb). rewrite Hb.
+      destruct (G c (i, ch)) as [[t|] c3]; cbn [fst snd] in *.
+      + exists o1. split; [exact Hrel1 | reflexivity].
+      + apply IH; [|exact Hrel1]. intros ic H. apply Hin. now right.
+  Qed.
+
   Lemma fill_outer_loop (p : ostr) (F : cache -> nat -> option tree * cache) (updf : cache -> option tree -> cache)
         (cond : pyopt * Z -> res bool) (body : pyopt * Z -> res (lctl (option pytree * pyopt) (pyopt * Z)))
         (kont : pyopt * Z -> res (option pytree * pyopt)) :
@@ -267,7 +308,8 @@ Section GS.
     (forall o t, cond (o, t) = Ok (0 <=? t)%Z) ->
     (forall o c t, crel optmax o c ->
         match find_cp p t 0 with
-        | None => exists o', crel optmax o' (updf c None) /\ body (o, t) = Ok (Return (None, o'))
+        | None => (exists o', crel optmax o' (updf c None) /\ body (o, t) = Ok (Return (None, o'))) \/
+                  (exists t', body (o, t) = Ok (Break (o, t')))
         | Some L => exists o', crel optmax o' (match fst (F c L) with
                                                | Some _ => updf (snd (F c L)) (fst (F c L))
                                                | None => snd (F c L) end) /\
@@ -295,9 +337,11 @@ Section GS.
         * exists o1. split; [exact Hrel1 | reflexivity].
         * rewrite <- (levels_down_pred L H2). apply IH; [|exact Hrel1].
           unfold mu. destruct (Z.of_nat L - 1 <? 0)%Z eqn:E2; [lia|]. apply Z.ltb_ge in E2. lia.
-      + destruct Hbody as (o1 & Hrel1 & Hb). rewrite Hb.
-        rewrite first_st_all_none by (intros c' L HL; apply Hempty; exact (find_cp_none_levels _ _ Efc L HL)).
-        cbn [fst snd otree_py option_map]. exists o1. split; [exact Hrel1 | reflexivity].
+      + rewrite first_st_all_none by (intros c' L HL; apply Hempty; exact (find_cp_none_levels _ _ Efc L HL)).
+        cbn [fst snd otree_py option_map].
+        destruct Hbody as [(o1 & Hrel1 & Hb) | (t' & Hb)]; rewrite Hb.
+        * exists o1. split; [exact Hrel1 | reflexivity].
+        * exact (Hkont o c t' Hrel).
     - apply Z.leb_gt in E. unfold levels_down. replace (t <? 0)%Z with true by (symmetry; apply Z.ltb_lt; lia).
       cbn [first_st fst snd otree_py option_map]. exact (Hkont o c t Hrel).
   Qed.
@@ -343,6 +387,37 @@ Section GS.
       exists o. split; [exact Hrel | reflexivity].
   Qed.
 
+  Lemma Zleb_nat a b : (Z.of_nat a <=? Z.of_nat b)%Z = Nat.leb a b.
+  Proof.
+    destruct (Nat.leb a b) eqn:E; [apply Nat.leb_le in E; apply Z.leb_le; lia | apply Nat.leb_gt in E; apply Z.leb_gt; lia].
+  Qed.
+
+  (* the same with the test kept as a boolean: `use_optimizer = length <= max_length` may have been
+     evaluated earlier, on another state of the (same) Optimizer *)
+  Lemma maybe_update_b f o c k p lvl v (b : bool) : crel optmax o c -> v <> Some [] -> b = Nat.leb k optmax ->
+    exists o', crel optmax o' (upd k p lvl c v) /\
+      (if b then '(_, o2) <- py_opt_update f o p (Z.of_nat k) lvl (otree_py v) ;; Ok o2 else Ok o) = Ok o'.
+  Proof.
+    intros Hrel Hv ->. destruct (maybe_update f o c k p lvl v Hrel Hv) as (o' & Hrel' & E).
+    exists o'. split; [exact Hrel'|]. rewrite <- E. pose proof Hrel as (Hm & _). now rewrite Hm, Zleb_nat.
+  Qed.
+
+  (* (length <= o.max_length) for any state o of the Optimizer we know to be related to a cache *)
+  Ltac leb_known :=
+    match goal with
+    | |- (_ <=? o_max_length ?ox)%Z = _ =>
+        match goal with H : crel _ ox _ |- _ => rewrite (proj1 H); apply Zleb_nat end
+    end.
+
+  (* opt' <- (if <length <= max_length> then update(..) else opt) ;; K opt' *)
+  Ltac do_update f ox cx K p lvl v Hrelx :=
+    match goal with |- context[bind (if ?b then _ else _) _] =>
+      let o4 := fresh "o4" in let Hrel4 := fresh "Hrel4" in let E4 := fresh "E4" in
+      destruct (maybe_update_b f ox cx K p lvl v b Hrelx ltac:(discriminate) ltac:(leb_known)) as (o4 & Hrel4 & E4);
+      exists o4; split; [exact Hrel4|];
+      match goal with |- context[bind ?X _] => replace X with (Ok o4) by (symmetry; exact E4) end
+    end.
+
   Theorem gen_fill self : gs_ok self -> forall k fuel o c p lvl,
     1 <= k -> crel optmax o c -> fuel >= fill_fuel k ->
     exists o', py_gs_fill_out_parse_tree fuel self o p (Z.of_nat k) lvl = Ok (otree_py (fst (fill k c p lvl)), o') /\
@@ -380,46 +455,58 @@ Section GS.
           intros o1 c1 t Hrel1. cbv beta iota.
           rewrite (gen_find_cp f self p t 0 Hok) by lia.
           destruct (find_cp p t 0) as [L|] eqn:Efc; cbn [fcp_py option_map bind].
-          - (* the levels of cp_index: `while cur_index < top_index` *)
-            match goal with |- context[mwhile ?fu ?cond ?body (o1, 0%Z) ?kont] =>
-              pose proof (fill_inner_loop (@Return (option pytree * pyopt) (pyopt * Z)) (fill_G (S k'') p lvl L) (upd K p lvl)
-                                          (cpf p L) cond body kont) as HI end.
-            feed HI.
-            { intros o0 i. reflexivity. }
-            feed HI.
-            { intros o2 c2 i ch Hrel2 Hnth. cbv beta iota.
-              rewrite (pyindex_nat _ _ _ Hnth). cbn [bind]. rewrite pyslice_tl.
-              replace (Z.of_nat K - 1)%Z with (Z.of_nat (S k'')) by (subst K; lia).
-              destruct (IH f o2 c2 (shift p ch) (lvl - Z.of_nat L)%Z ltac:(lia) Hrel2 ltac:(unfold fill_fuel; subst K; lia))
-                as (o3 & E3 & Hrel3).
-              unfold shift in E3 at 1. rewrite E3. cbn [bind]. unfold fill_G. cbn [snd fst].
-              destruct (fill (S k'') c2 (shift p ch) (lvl - Z.of_nat L)) as [[tr|] c3]; cbn [fst snd otree_py option_map] in *.
-              - destruct (maybe_update f o3 c3 K p lvl (Some ((p, L, i) :: tr)) Hrel3 ltac:(discriminate)) as (o4 & Hrel4 & E4).
-                exists o4. split; [exact Hrel4|].
-                match goal with |- bind ?X _ = _ => replace X with (Ok o4) by (symmetry; exact E4) end.
-                reflexivity.
-              - exists o3. split; [exact Hrel3|]. do 3 f_equal. lia. }
-            destruct (HI (S f) 0 o1 c1) as (o5 & Hrel5 & E5).
-            { pose proof (cpf_of_length cp p L). lia. }
-            { lia. }
-            { exact Hrel1. }
-            cbn [skipn] in *. change (Z.of_nat 0) with 0%Z in E5.
+          - (* the characters of cp_index *)
+            lazymatch goal with
+            | |- context[mwhile _ _ _ (o1, 0%Z) _] =>
+                (* `cur_index = 0; while cur_index < top_index: ...; cur_index += 1` *)
+                match goal with |- context[mwhile ?fu ?cond ?body (o1, 0%Z) ?kont] =>
+                  pose proof (fill_inner_loop (@Return (option pytree * pyopt) (pyopt * Z)) (fill_G (S k'') p lvl L) (upd K p lvl)
+                                              (cpf p L) cond body kont) as HI end;
+                feed HI;
+                [ intros o0 i; reflexivity |];
+                feed HI;
+                [ intros o2 c2 i ch Hrel2 Hnth; cbv beta iota;
+                  rewrite (pyindex_nat _ _ _ Hnth); cbn [bind]; rewrite pyslice_tl;
+                  replace (Z.of_nat K - 1)%Z with (Z.of_nat (S k'')) by (subst K; lia);
+                  destruct (IH f o2 c2 (shift p ch) (lvl - Z.of_nat L)%Z ltac:(lia) Hrel2 ltac:(unfold fill_fuel; subst K; lia))
+                    as (o3 & E3 & Hrel3);
+                  unfold shift in E3 at 1; rewrite E3; cbn [bind]; unfold fill_G; cbn [snd fst];
+                  destruct (fill (S k'') c2 (shift p ch) (lvl - Z.of_nat L)) as [[tr|] c3]; cbn [fst snd otree_py option_map] in *;
+                  [ do_update f o3 c3 K p lvl (Some ((p, L, i) :: tr)) Hrel3; reflexivity
+                  | exists o3; split; [exact Hrel3|]; do 3 f_equal; lia ]
+                |];
+                destruct (HI (S f) 0 o1 c1) as (o5 & Hrel5 & E5);
+                [ pose proof (cpf_of_length cp p L); lia | lia | exact Hrel1 |];
+                cbn [skipn] in *; change (Z.of_nat 0) with 0%Z in E5
+            | |- context[mfor (zenumerate _) _ _ _] =>
+                (* `for cur_index, next_letter in enumerate(cp_index):` *)
+                match goal with |- context[mfor (zenumerate _) ?body ?st ?kont] =>
+                  pose proof (fill_inner_for (@Return (option pytree * pyopt) (pyopt * Z)) (fill_G (S k'') p lvl L) (upd K p lvl)
+                                             (cpf p L) body kont) as HI end;
+                feed HI;
+                [ intros o2 c2 i ch Hrel2 Hnth; cbv beta iota; rewrite pyslice_tl;
+                  replace (Z.of_nat K - 1)%Z with (Z.of_nat (S k'')) by (subst K; lia);
+                  destruct (IH f o2 c2 (shift p ch) (lvl - Z.of_nat L)%Z ltac:(lia) Hrel2 ltac:(unfold fill_fuel; subst K; lia))
+                    as (o3 & E3 & Hrel3);
+                  unfold shift in E3 at 1; rewrite E3; cbn [bind]; unfold fill_G; cbn [snd fst];
+                  destruct (fill (S k'') c2 (shift p ch) (lvl - Z.of_nat L)) as [[tr|] c3]; cbn [fst snd otree_py option_map] in *;
+                  [ do_update f o3 c3 K p lvl (Some ((p, L, i) :: tr)) Hrel3; reflexivity
+                  | exists o3; split; [exact Hrel3 | reflexivity] ]
+                |];
+                destruct (HI o1 c1 Hrel1) as (o5 & Hrel5 & E5)
+            end.
             exists o5. split; [exact Hrel5|].
             match goal with |- ?X = _ => replace X with
               (match fst (fill_F (S k'') p lvl c1 L) with
                | Some t0 => Ok (Return (Some (tree_py t0), o5))
                | None => Ok (Continue (o5, (Z.of_nat L - 1)%Z)) end) by (symmetry; exact E5) end.
             destruct (fst (fill_F (S k'') p lvl c1 L)); reflexivity.
-          - destruct (maybe_update f o1 c1 K p lvl None Hrel1 ltac:(discriminate)) as (o4 & Hrel4 & E4).
-            exists o4. split; [exact Hrel4|].
-            match goal with |- bind ?X _ = _ => replace X with (Ok o4) by (symmetry; exact E4) end.
-            reflexivity. }
+          - (* nothing at or below this level: update and return None, or break to the shared exit *)
+            first [ left; do_update f o1 c1 K p lvl (@None tree) Hrel1; reflexivity
+                  | right; eexists; reflexivity ]. }
         feed HL.
         { intros o1 c1 t Hrel1. cbv beta iota.
-          destruct (maybe_update f o1 c1 K p lvl None Hrel1 ltac:(discriminate)) as (o4 & Hrel4 & E4).
-          exists o4. split; [exact Hrel4|].
-          match goal with |- bind ?X _ = _ => replace X with (Ok o4) by (symmetry; exact E4) end.
-          reflexivity. }
+          do_update f o1 c1 K p lvl (@None tree) Hrel1. reflexivity. }
         destruct (HL (S f) lvl o c) as (o' & Hrel' & E').
         { unfold mu. destruct (lvl <? 0)%Z; lia. }
         { exact Hrel. }
